@@ -30,6 +30,13 @@ MCSigs == Signed({1, 2, 4, 8, 20})
 DecPhases == {"C"}
 DecSigs == Signed({1, 2, 4, 6, 7, 30})
 
+\* decimal significances in thousandths (Rounding_mil.cfg, SigDen = 1000):
+\* +-0.07, +-0.14, +-0.28, +-0.57, +-0.071, +-4.1, +-8.3 -- the float quotient
+\* of one of their multiples is off by more than its last bit
+\* (2.03 / 0.07 = 29.000000000000004); scales up to 10^3 (32-bit arithmetic)
+MilSigs == Signed({70, 140, 280, 570, 71, 4100, 8300})
+MilJs == {0, 1, 2, 3}
+
 \* quick: ~2e4 states
 MCSmallMax == 16
 MCGridStride == 333331
